@@ -112,8 +112,12 @@ type Provider struct {
 	ipSinkSource   chan gostatsd.Source
 	infoSinkSource chan gostatsd.InstanceInfo
 
-	rw    sync.RWMutex // Protects cache
+	rw    sync.RWMutex // Protects cache and cacheGen
 	cache map[gostatsd.Source]*gostatsd.Instance
+	// cacheGen counts cache invalidations. A lookup only stores its result if no invalidation has
+	// happened since it started, otherwise it could store data computed from a Pod version that has
+	// been replaced or deleted in the meantime, and nothing would invalidate it any more.
+	cacheGen uint64
 }
 
 func (p *Provider) IpSink() chan<- gostatsd.Source {
@@ -168,6 +172,7 @@ func (p *Provider) Run(ctx context.Context) {
 func (p *Provider) instanceFromCache(ip gostatsd.Source) *gostatsd.Instance {
 	p.rw.RLock()
 	instance := p.cache[ip]
+	gen := p.cacheGen
 	p.rw.RUnlock()
 	if instance != nil {
 		// Instance found
@@ -179,7 +184,9 @@ func (p *Provider) instanceFromCache(ip gostatsd.Source) *gostatsd.Instance {
 	// Holding the lock around the whole block would prevent concurrent calculations but also ALL lookups.
 	// This is unacceptable.
 	p.rw.Lock()
-	p.cache[ip] = instance
+	if p.cacheGen == gen {
+		p.cache[ip] = instance
+	}
 	p.rw.Unlock()
 	return instance
 }
@@ -464,5 +471,6 @@ func (e cacheInvalidationHandler) maybeInvalidateCacheForPod(pod *core_v1.Pod) {
 	}
 	e.p.rw.Lock()
 	delete(e.p.cache, gostatsd.Source(pod.Status.PodIP))
+	e.p.cacheGen++
 	e.p.rw.Unlock()
 }
